@@ -38,6 +38,14 @@ SHARDS = {"quick": 16, "thorough": 16}
 
 CFG = {"input": "UNMATCHED_INSTANCE", "matcher": {"kind": "naive", "metric": "IOU", "thr": 0.5}, "metrics": ["DSC", "IOU", "RVD"], "global": ["DSC"]}
 NAMES = ["s0", "s1", "s2", "s3", "s4", "s5"]
+# profiles for the family that also interleaves threads INSIDE the shared evaluator (each row must still carry the
+# values of a sequential run): inputs of different dimensionality with corner contacts, stateful-looking components
+EVAL_PROFILES = [
+    {"input": "SEMANTIC", "backend": None, "matcher": {"kind": "naive", "metric": "IOU", "thr": 0.3}, "metrics": ["DSC", "IOU", "RVD"], "global": ["DSC"]},
+    {"input": "UNMATCHED_INSTANCE", "matcher": {"kind": "merge", "metric": "IOU", "thr": 0.3}, "metrics": ["DSC", "IOU", "RVD"], "global": ["DSC"]},
+    {"input": "UNMATCHED_INSTANCE", "matcher": {"kind": "naive", "metric": "DSC", "thr": 0.3, "m2o": True}, "metrics": ["DSC", "IOU", "RVD"], "global": ["IOU"]},
+]
+PROFILE = {"cfg": CFG, "idx": None}
 
 
 def cases(tier, seed):
@@ -48,6 +56,8 @@ def cases(tier, seed):
         yield {"fam": "dfs", "i": i}
     for i in range(128 if tier == "quick" else 2400):
         yield {"fam": "lines", "i": i}
+    for i in range(48 if tier == "quick" else 960):
+        yield {"fam": "lines_eval", "i": i}
     for i in range(48 if tier == "quick" else 1200):
         yield {"fam": "noise_threads", "i": i}
     for i in range(32 if tier == "quick" else 1200):
@@ -64,6 +74,32 @@ def setup(ctx):
 
 def subject_input(name):
     k = NAMES.index(name)
+    if PROFILE["idx"] is not None:
+        # 2-D and 3-D inputs in turn, instances touching only at corners, fragments and unmatched predictions
+        shape = (6, 7) if k % 2 == 0 else (3, 5, 5)
+        refa = np.zeros(shape, dtype=np.uint8)
+        pred = np.zeros(shape, dtype=np.uint8)
+        if k % 2 == 0:
+            refa[0, 0] = refa[1, 1] = refa[2, 2] = 1
+            refa[4, 2:6] = 1
+            pred[0, 0] = pred[1, 1] = 1
+            pred[4, 2 : 4 + k // 2] = 1
+            pred[4, 5] = 2
+            pred[2, 5 - k // 2] = 3
+        else:
+            refa[0, 0, 0] = refa[1, 1, 1] = refa[2, 2, 2] = 1
+            refa[2, 0, 1:5] = 1
+            pred[0, 0, 0] = pred[1, 1, 1] = 1
+            pred[2, 0, 1 : 3 + k // 2] = 1
+            pred[2, 0, 4] = 2
+            pred[0, 4, k // 2] = 3
+        if PROFILE["cfg"]["input"] == "SEMANTIC":
+            return (pred != 0).astype(np.uint8), (refa != 0).astype(np.uint8)
+        if k % 2 == 0:
+            refa[4, 2:6] = 2
+        else:
+            refa[2, 0, 1:5] = 2
+        return pred, refa
     refa = np.zeros(16, dtype=np.uint8)
     pred = np.zeros(16, dtype=np.uint8)
     refa[1 : 5 + k] = 1
@@ -80,6 +116,23 @@ def read_rows(path):
 
 def expected_rows(ctx):
     """rows a sequential run produces, per subject name"""
+    if PROFILE["idx"] is not None:
+        cache = ctx.__dict__.setdefault("_expected_profiles", {})
+        if PROFILE["idx"] not in cache:
+            from panoptica import Panoptica_Aggregator
+            from vf import sched
+
+            mode = sched.T.mode
+            sched.T.mode = "off"
+            d = tempfile.mkdtemp(prefix="c16e_", dir=os.environ.get("VERIF_TMP"))
+            p = os.path.join(d, "seq.tsv")
+            agg = Panoptica_Aggregator(pan.make_evaluator(PROFILE["cfg"]), p)
+            for n in NAMES:
+                agg.evaluate(*subject_input(n), n)
+            rows = read_rows(p)
+            cache[PROFILE["idx"]] = (rows[0], {r[0]: r for r in rows[1:]})
+            sched.T.mode = mode
+        return cache[PROFILE["idx"]]
     if ctx._expected is None:
         from panoptica import Panoptica_Aggregator
         from vf import sched
@@ -117,7 +170,7 @@ def new_aggregator(d, trace_eval=False, continue_file=True):
     from panoptica import Panoptica_Aggregator
     from vf import sched
 
-    ev = pan.make_evaluator(CFG)
+    ev = pan.make_evaluator(PROFILE["cfg"])
     path = os.path.join(d, "out.tsv")
     agg = Panoptica_Aggregator(ev, path) if continue_file else Panoptica_Aggregator(ev, path, continue_file=False)
     if trace_eval:  # the evaluation between the two critical sections is a scheduling point too
@@ -519,7 +572,7 @@ def run(case, ctx):
     fam, i = case["fam"], case["i"]
     r = gen.rng(ctx.seed, "c16", fam, i)
     det0 = {"family": fam}
-    if fam in ("controlled", "dfs", "lines") and not sched.T.locks_traced:
+    if fam in ("controlled", "dfs", "lines", "lines_eval") and not sched.T.locks_traced:
         ctx.count("C16.controlled_scheduling_unavailable")
         return
     if fam == "controlled":
@@ -564,6 +617,31 @@ def run(case, ctx):
                     ctx.count("C16.line_points", sum(1 for t in cs.trace if t[1] == "line"))
         finally:
             sched.disable_line_points()
+    elif fam == "lines_eval":
+        # threads interleaved at line level inside the shared evaluator's own code as well
+        import panoptica._functionals as m1, panoptica.instance_matcher as m2, panoptica.instance_approximator as m3
+        import panoptica.instance_evaluator as m4, panoptica.panoptica_evaluator as m5, panoptica.utils.instancelabelmap as m6
+        import panoptica.metrics.metrics as m7, panoptica.utils.processing_pair as m8, panoptica.utils.edge_case_handling as m9
+
+        if not sched.enable_line_points([m.__file__ for m in (m1, m2, m3, m4, m5, m6, m7, m8, m9)]):
+            ctx.count("C16.line_points_unavailable")
+            return
+        PROFILE["idx"] = i % len(EVAL_PROFILES)
+        PROFILE["cfg"] = EVAL_PROFILES[PROFILE["idx"]]
+        try:
+            expected_rows(ctx)
+            nw = int(r.integers(2, 4))
+            hist = {f"w{k}": [["eval", NAMES[(k + j + i) % 6]] for j in range(2)] for k in range(nw)}
+            for s_ in range(2):
+                rr = np.random.default_rng([ctx.seed, i, s_, 99])
+                cs = run_controlled(ctx, hist, lambda ws: sched.random_walk(rr), "lines_eval_random", False, dict(det0, profile=PROFILE["idx"]))
+                ctx.count("C16.line_level_schedules")
+                ctx.count("C16.evaluator_interleaved_schedules")
+                if cs is not None:
+                    ctx.count("C16.line_points", sum(1 for t in cs.trace if t[1] == "line"))
+        finally:
+            sched.disable_line_points()
+            PROFILE["idx"], PROFILE["cfg"] = None, CFG
     elif fam == "dfs":
         # preemption-bounded systematic search: 2 workers bound 2, 3 workers bound 1
         nw, bound = (2, 2) if i % 2 == 0 else (3, 1)
